@@ -51,6 +51,8 @@ func corpusFor(prop string) []corpusCase {
 		out = append(out, corpusCase{Name: filepath.Base(filepath.Dir(s)), Kind: "seeded", Patch: filepath.Join(filepath.Dir(s), "patch.diff"), Property: prop})
 	}
 	bs, _ := filepath.Glob(filepath.Join(v, "selftest", "benign", "*.patch"))
+	ba, _ := filepath.Glob(filepath.Join(v, "selftest", "benign-agents", "*.patch"))
+	bs = append(bs, ba...)
 	for _, b := range bs {
 		out = append(out, corpusCase{Name: filepath.Base(b), Kind: "benign", Patch: b, Property: prop})
 	}
@@ -134,7 +136,7 @@ func runSelftest(prop string, repo string, repoClean bool) (map[string]interface
 	}
 	state := repoTreeState(repo)
 	gating := authored != "" && state == authored
-	sem := make(chan struct{}, 6)
+	sem := make(chan struct{}, 10)
 	var wg sync.WaitGroup
 	for i := range cases {
 		wg.Add(1)
